@@ -12,6 +12,9 @@ BEGIN, END = '<!-- SEEDED-BEGIN -->', '<!-- SEEDED-END -->'
 OUT_OF_SCOPE = {
     'C10-1': 'not a violation of the statement: it only moves a $ marker between two corners that share a row; the '
              'statement fixes coordinates and labels of range corners, not marker attribution on ties',
+    'C13-4': 'not a violation of the statement as read here: DATEVALUE of date-time TEXT dropping the time of day is what '
+             'Excel does; the statement speaks of date-times and their serials, not of which function reads the time out of '
+             'text (C14 checks HOUR/MINUTE/SECOND of ISO text)',
     'C17-2': 'not a violation of the statement as read here: CEILING of a positive number with a negative significance '
              '(Excel: #NUM!) is listed under "not demanded" - an error or either adjacent multiple is accepted',
 }
